@@ -37,6 +37,8 @@ func init() {
 			B.obligations(c, boundOpts{prop: "C04", onlyTainted: true, progress: true, alloc: true, contracts: true})
 			ruleNilDeref(c, B.funcs, "decode closure")
 			ruleGrowth(c)
+			ruleNestedAlloc(c, B)
+			ruleInternGrowth(c)
 			c.Floor("B.slice", 60)
 			c.Floor("B.contract", 40)
 			c.Floor("B.progress", 15)
